@@ -249,6 +249,18 @@ Theorem c02_numeric_startswith_is_equals : forall hs q e, consistent in_i64 hs -
 Proof. exact int_startswith_is_equals. Qed.
 Print Assumptions c02_numeric_startswith_is_equals.
 
+Theorem c02_float_startswith_is_equals : forall hs q e, consistent f64_valid hs -> f64_valid q ->
+  exists r, flt_search OP_PREFIX q e (flt_run hs) = Some r /\
+    same_set r (fun n => exists v, stored_after hs n = Some v /\ f64_eq v q = true).
+Proof. exact flt_startswith_is_equals. Qed.
+Print Assumptions c02_float_startswith_is_equals.
+
+(* any other operator code is refused ("unknown inverted search operator") *)
+Theorem c02_unknown_operator : forall (V : Type) (enc : V -> bytes) (dec : bytes -> V) (veqb : V -> V -> bool) op q e b,
+  7 < op -> search enc dec veqb op q e b = None.
+Proof. exact (@search_unknown_op). Qed.
+Print Assumptions c02_unknown_operator.
+
 (* ===================== concrete histories (computed by the kernel) ======== *)
 Open Scope Z_scope.
 Definition zmin : Z := -9223372036854775808.
